@@ -14,26 +14,50 @@ import (
 )
 
 const c33Runner = `
-const vm = require('vm'), fs = require('fs'), rl = require('readline');
+const vm = require('vm'), fs = require('fs');
+function sandbox(out) {
+  return { console: { log: (...a) => out.push(a.map(String).join(' ')) },
+           gShared: 7, status: 'S', total: 100, helper: (x) => x * 2, name: 'host', event: { type: 'evt' },
+           location: { href: 'http://h/' } };
+}
 function observe(code) {
   const out = [];
-  const sb = { console: { log: (...a) => out.push(a.map(String).join(' ')) },
-               gShared: 7, status: 'S', total: 100, helper: (x) => x * 2, name: 'host', event: { type: 'evt' },
-               location: { href: 'http://h/' } };
+  const sb = sandbox(out);
   const base = Object.keys(sb);
   let err = '';
   try { vm.runInNewContext(code, sb, { timeout: 2000 }); } catch (e) { err = (e && e.name) || 'throw'; }
   const keys = Object.keys(sb).filter(k => !base.includes(k)).sort();
   return JSON.stringify({ out, err, keys });
 }
-const w = fs.createWriteStream(process.argv[3]);
-const r = rl.createInterface({ input: fs.createReadStream(process.argv[2]), crlfDelay: Infinity });
-r.on('line', (line) => {
-  if (!line) return;
-  const c = JSON.parse(line);
-  w.write(JSON.stringify({ id: c.id, orig: observe(c.orig), min0: observe(c.min0), min1: observe(c.min1) }) + '\n');
-});
-r.on('close', () => w.end());
+// an ES module (import/export forms, import.meta, strict mode): parsed, linked against a synthetic
+// './dep.js' and evaluated; observed: printed output, error name, exported names and their values.
+async function observeModule(code) {
+  const out = [];
+  const sb = vm.createContext(sandbox(out));
+  let err = '', keys = [];
+  try {
+    const dep = new vm.SyntheticModule(['default', 'impA', 'impC'], function () {
+      this.setExport('default', 11); this.setExport('impA', 22); this.setExport('impC', 33);
+    }, { context: sb, identifier: './dep.js' });
+    const m = new vm.SourceTextModule(code, { context: sb, identifier: 'main.mjs',
+      initializeImportMeta(meta) { meta.url = 'file:///main.mjs'; } });
+    await m.link(() => dep);
+    await m.evaluate({ timeout: 2000 });
+    keys = Object.keys(m.namespace).sort();
+    for (const k of keys) { let v; try { v = JSON.stringify(m.namespace[k]); } catch (e) { v = 'unprintable'; } out.push(k + '=' + v); }
+  } catch (e) { err = (e && e.name) || 'throw'; }
+  return JSON.stringify({ out, err, keys });
+}
+(async () => {
+  const w = fs.createWriteStream(process.argv[3]);
+  for (const line of fs.readFileSync(process.argv[2], 'utf8').split('\n')) {
+    if (!line) continue;
+    const c = JSON.parse(line);
+    const ob = c.module ? observeModule : observe;
+    w.write(JSON.stringify({ id: c.id, orig: await ob(c.orig), min0: await ob(c.min0), min1: await ob(c.min1) }) + '\n');
+  }
+  w.end();
+})();
 `
 
 type c33NodeIn struct {
@@ -41,6 +65,8 @@ type c33NodeIn struct {
 	Orig string `json:"orig"`
 	Min0 string `json:"min0"`
 	Min1 string `json:"min1"`
+	// Module: evaluate as an ES module (vm.SourceTextModule) instead of a script
+	Module bool `json:"module,omitempty"`
 }
 
 type c33NodeOut struct {
@@ -76,7 +102,7 @@ func c33RunNode(dir string, in []c33NodeIn) (map[int]c33NodeOut, error) {
 
 	f.Close()
 
-	cmd := exec.Command("node", runner, inFile, outFile)
+	cmd := exec.Command("node", "--experimental-vm-modules", "--no-warnings", runner, inFile, outFile)
 	if b, err := cmd.CombinedOutput(); err != nil {
 		return nil, &exec.Error{Name: "node: " + string(b), Err: err}
 	}
